@@ -529,13 +529,8 @@ func arAlphabet() []setOp {
 	for _, k := range []string{"ar-add", "ar-sub"} {
 		for _, a := range subsets() {
 			for _, d := range subsets() {
-				disjoint := true
-				for _, x := range a {
-					if has(d, x) {
-						disjoint = false
-					}
-				}
-				if disjoint && len(a)+len(d) > 0 {
+				// overlapping pairs included: an element both added and deleted by one mutation nets to nothing
+				if len(a)+len(d) > 0 {
 					ops = append(ops, setOp{kind: k, a: a, d: d, name: fmt.Sprintf("%s(+%v,-%v)", map[string]string{"ar-add": "Add", "ar-sub": "Subtract"}[k], a, d)})
 				}
 			}
@@ -832,7 +827,7 @@ func main() {
 	cli.Main(&cli.Property{
 		ID: "C11", Level: "model_checking", Scenarios: scenarios(), Parts: parts,
 		QuickBound: 2, ThoroughBound: 3, QuickUnbounded: true, ThoroughUnbounded: true, Cache: true, QuickSecs: 45, ThoroughSecs: 600,
-		Rule:        "H: breadth-first search to the fixpoint of the reachable (insertion-ordered) state space over universe {1,2,3}: OrderedMap Set/Delete/Clear and iteration with a consumer deleting the visited key; Set Add/Delete/AddAll/DeleteAll/Replace/Apply/Compute/Clear/Encode-Decode with every subset (and the set itself) as argument, every probe (Has/HasAll/Equals/Intersect/Filter/Clone/Is/Any/ToSlice/Iterator/Range/ForEach/Size) after every step; SetArithmetic Add/Subtract with thresholds 1 and 2 over all disjoint mutation pairs. S: all interleavings of 7 scenarios of concurrent Set/OrderedMap method calls; distinct = distinct states / observation logs",
+		Rule:        "H: breadth-first search to the fixpoint of the reachable (insertion-ordered) state space over universe {1,2,3}: OrderedMap Set/Delete/Clear and iteration with a consumer deleting the visited key; Set Add/Delete/AddAll/DeleteAll/Replace/Apply/Compute/Clear/Encode-Decode with every subset (and the set itself) as argument, every probe (Has/HasAll/Equals/Intersect/Filter/Clone/Is/Any/ToSlice/Iterator/Range/ForEach/Size) after every step; SetArithmetic Add/Subtract with thresholds 1 and 2 over all mutation pairs (added, deleted), overlapping ones included. S: all interleavings of 7 scenarios of concurrent Set/OrderedMap method calls; distinct = distinct states / observation logs",
 		Assumptions: []string{"Apply is exercised with disjoint added/deleted sets", "Replace is defined as Clear followed by adding the new elements in their order"},
 		NotReached:  []string{"universes larger than 3 elements", "more than 3 concurrent callers"},
 	})
